@@ -601,6 +601,7 @@ Definition eval_index_step (self : evals) (st : state) (l i v callee : expr) : R
                   match iv with
                   | VNil => fail st2
                   | _ =>
+                      if negb (comparable_v iv) then fail st2 else
                       let kind_ok :=
                         match kty, iv with
                         | TyIface, _ => true
@@ -639,7 +640,7 @@ Definition eval_index_step (self : evals) (st : state) (l i v callee : expr) : R
           | VMap loc =>
               match hget (sheap st3) loc with
               | Some (HMap kty vty kvs) =>
-                  let key_ok := match kty, iv with
+                  let key_ok := comparable_v iv && match kty, iv with
                                 | _, VNil => false
                                 | TyIface, _ => true
                                 | TyString, VStr _ | TyInt, VInt _ | TyBool, VBool _ => true
